@@ -357,11 +357,14 @@ pub fn run(ctx: &Ctx) -> Report {
     }
     for s in ms {
         let cl: Vec<Clause> = s.iter().map(|&i| types[i].clone()).collect();
-        if cl.is_empty() || cl.iter().any(|c| c.is_empty()) {
+        // (a text needs at least one variable; FORCE is only defined without empty clauses)
+        if cl.is_empty() || num_vars(&cl) == 0 {
             continue;
         }
         cases.push(Case::Cnf(cl.clone(), "auto_minfill"));
-        cases.push(Case::Cnf(cl, "auto_force"));
+        if !cl.iter().any(|c| c.is_empty()) {
+            cases.push(Case::Cnf(cl, "auto_force"));
+        }
     }
     // long CNF inputs: clauses with up to k literals, lists of up to k unit clauses
     for cl in long_lists(ctx.tier.pick(8, 12)) {
